@@ -930,7 +930,13 @@ impl Interp {
                     unreachable!();
                 }
             } else {
-                return molt_err!("invalid command name \"{}\"", name);
+                // Report the failing command like any other new error, so that enclosing
+                // procedures are named in the trace.
+                let mut exception =
+                    Exception::molt_err(Value::from(format!("invalid command name \"{}\"", name)));
+                exception.add_error_info("    while executing");
+                exception.add_error_info(&format!("\"{}\"", &list_to_string(&words)));
+                return Err(exception);
             }
         }
 
